@@ -252,7 +252,9 @@ func NewTypecast(scope *types.Scope, imports util.ImportNames, t types.Type, inn
 		// If the type is defined within the current package.
 		if typ.Obj().Pkg() == nil || scope.Lookup(typ.Obj().Name()) != nil {
 			expr = typ.Obj().Name()
-		} else if pkgName, ok := imports.LookupName(typ.Obj().Pkg().Path()); ok {
+		} else if pkgName, ok := imports.LookupName(typ.Obj().Pkg().Path()); ok && pkgName == "." {
+			expr = typ.Obj().Name()
+		} else if ok {
 			expr = fmt.Sprintf("%v.%v", pkgName, typ.Obj().Name())
 		} else {
 			expr = fmt.Sprintf("%v.%v", typ.Obj().Pkg().Name(), typ.Obj().Name())
